@@ -488,6 +488,21 @@ func (w *World) Track(tag string, h util.Uint160, neo bool) {
 	}
 }
 
+// TokenAccounts renders every account record of the native GAS and NEO contracts (prefix 20). The layered executor
+// charges no fees and mints no block rewards, so between two layers of one path these records move only when a
+// contract moves tokens: "moves no tokens" can be judged over all accounts, not only the tracked ones. (Not part
+// of the canonical state: on real blocks fees and rewards do move them.)
+func (w *World) TokenAccounts(layer *dao.Simple) map[string]string {
+	out := map[string]string{}
+	for tag, id := range map[string]int32{"gas": w.GasID, "neo": w.NeoID} {
+		layer.Seek(id, storage.SeekRange{Prefix: []byte{20}}, func(k, v []byte) bool {
+			out[tag+":"+hex.EncodeToString(k)] = hex.EncodeToString(v)
+			return true
+		})
+	}
+	return out
+}
+
 func (w *World) NameOf(h util.Uint160) string {
 	for n, d := range w.Contracts {
 		if d.Hash == h {
